@@ -30,23 +30,31 @@ def parse_out(o):
         a["gen"] = int(m.group(2))
         a["ok"] = m.group(3) == "ok"
         atts.append(a)
-    sm = re.match(r"reg\[(.*) e=(\d+)\] wait=(\S+) un=(\d) au=(\d) ne=(\d+) st=(\d+) dn=(\S+) rn=(\S+) fail=(\d+) ln=(\S+) ls=(\S+)", st)
+    sm = re.match(r"reg\[(.*) e=(\d+)\] wait=(\S+) un=(\d) au=(\d) ne=(\d+) st=(\d+) dn=(\S+) rn=(\S+) fail=(\d+) ln=(\S+) ls=(\S+) rp=(\d+) up=(\d)", st)
     if not sm:
         raise ValueError("bad state: " + st)
     state = dict(info=parse_info(sm.group(1)), epoch=int(sm.group(2)), wait=sm.group(3), unstable=sm.group(4) == "1",
                  dn=[] if sm.group(8) == "-" else [int(x) for x in sm.group(8).split(",")],
-                 rn=sm.group(9))
+                 rn=sm.group(9), rp=int(sm.group(13)), up=sm.group(14) == "1")
     return ret, atts, state
 
 
-def inv_fail(w, replica):
+def isr_of(w):
+    rmk = [r[0] for r in w["rm"]]
+    return [n for n in w["nodes"] if n not in rmk]
+
+
+def quorum(w, replica):
+    return len(isr_of(w)) > replica // 2
+
+
+def inv_fail(w, replica, with_quorum=True):
     """the invariant of the property on one value passed to the register; returns None or the failed clause"""
     nodes, ids, rm = w["nodes"], w["ids"], w["rm"]
     if len(rm) > 1:
         return "more than one replica marked for removal"
-    rmk = [r[0] for r in rm]
-    isr = [n for n in nodes if n not in rmk]
-    if not len(isr) > replica // 2:
+    isr = isr_of(w)
+    if with_quorum and not len(isr) > replica // 2:
         return "remaining replicas %d not a strict majority of replication factor %d" % (len(isr), replica)
     if len(set(nodes)) != len(nodes):
         return "a node holds two replicas"
@@ -71,7 +79,8 @@ def inv_fail(w, replica):
 def oracle_sequence(sid, lines, outs):
     """lines: [(id, kind, fields)], outs: {id: out}. The property itself on the implementation's writes."""
     fails = []
-    stats = dict(writes=0, ok_writes=0, adds=0, marks=0, finishes=0, swaps=0, panics=0, learner_changes=0)
+    stats = dict(writes=0, ok_writes=0, adds=0, marks=0, finishes=0, swaps=0, panics=0, learner_changes=0,
+                 factor_changes=0, below_raised_factor=0)
     replica = None
     ans = {}
     stored = None
@@ -114,9 +123,18 @@ def oracle_sequence(sid, lines, outs):
         before = stored
         for w in atts:
             stats["writes"] += 1
-            bad = inv_fail(w, replica)
+            # the factor may have been raised by ChangeNamespaceMetaParam: then the stored value itself need not be a
+            # majority of it any more; what the code guarantees is (i) a majority is never lost by a write and
+            # (ii) a write that shrinks the non-removing set leaves a majority of the factor in effect
+            bad = inv_fail(w, replica, with_quorum=False)
+            if not bad and quorum(before, replica) and not quorum(w, replica):
+                bad = "a write lost the strict majority: %d remaining of replication factor %d" % (len(isr_of(w)), replica)
+            if not bad and len(isr_of(w)) < len(isr_of(before)) and not quorum(w, replica):
+                bad = "a write shrank the non-removing replicas to %d, not a strict majority of %d" % (len(isr_of(w)), replica)
+            if not bad and not quorum(w, replica):
+                stats["below_raised_factor"] = stats.get("below_raised_factor", 0) + 1
             if bad:
-                fail(cid, "invariant: " + bad, dict(kind=kind, before=before, written=w))
+                fail(cid, "invariant: " + bad, dict(kind=kind, before=before, written=w, replica=replica))
             if w["max"] < before["max"]:
                 fail(cid, "MaxRaftID decreased", dict(kind=kind, before=before, written=w))
             added = [n for n in w["nodes"] if n not in before["nodes"]]
@@ -177,6 +195,13 @@ def oracle_sequence(sid, lines, outs):
             # the register content must be the last successful write (time stamps projected)
             fail(cid, "harness: register content is not the last successful write", dict(stored=stored, last=before))
         dn = state["dn"]
+        if state["rp"] != replica:
+            stats["factor_changes"] = stats.get("factor_changes", 0) + 1
+            if kind != "G":
+                fail(cid, "harness: replication factor changed by an event other than G", {})
+            if state["rp"] < replica and quorum(stored, replica) and not quorum(stored, state["rp"]):
+                fail(cid, "lowering the factor lost the majority", dict(stored=stored))
+            replica = state["rp"]
     return fails, stats
 
 
@@ -369,7 +394,8 @@ def run(ctx):
              "removeNamespaceFromNode/removeNamespaceFromRemovings), X (register update failures), O (auto balance), "
              "B (rebalanceNamespace), K/P (MarkNodeAsRemoving/processRemovingNodes), the learner placement driver on the same register: "
              "LC (doCheckNamespacesForLearner), LS (start/stop key), LA/LL/LR/LX (bare addNsLearnerToNode/updateNsLearnerLeader/"
-             "removeNsLearnerFromNode/removeNsAllLearners), learner nodes joining/leaving in N; Z = namespace creation on an empty register "
+             "removeNsLearnerFromNode/removeNsAllLearners), learner nodes joining/leaving in N; G (ChangeNamespaceMetaParam: replication "
+             "factor 0..6), U (SetClusterUpgradeState); Z = namespace creation on an empty register "
              "(1..6 partitions). evaluations = events compared with the model; "
              "non-trivial = sequence with at least one register update attempt, distinct by hash of its event lines.",
         histogram=hist_all,
